@@ -226,6 +226,10 @@ pub fn pick_spec(rng: &mut Rng, b: &SpecBounds) -> Spec {
 pub const LEN_LATTICE: [usize; 9] = [0, 1, 2, 126, 127, 128, 16382, 16383, 16384];
 
 pub fn lattice_len(rng: &mut Rng, big: bool) -> usize {
+    // very rarely: the 3-byte size-field boundary (2^21-1 is the reserved all-ones pattern of that width)
+    if big && rng.chance(1, 1500) {
+        return *rng.pick(&[2_097_150usize, 2_097_151, 2_097_152]);
+    }
     match rng.below(100) {
         0..=59 => rng.urange(0, 12),
         60..=79 => *rng.pick(&[0usize, 1, 2, 125, 126, 127, 128, 129]),
@@ -587,7 +591,11 @@ pub fn pad_master_to(rng: &mut Rng, nodes: &mut [Node], target: u64) -> bool {
             continue;
         }
         let extra = target - c;
-        let payload = if extra - 2 < 127 { extra - 2 } else if extra >= 3 && extra - 3 >= 127 { extra - 3 } else { continue };
+        // Void header = 1 id byte + minimal size field for the payload
+        let payload = match (2..=5u64).find(|h| extra >= *h && crate::refcodec::min_size_width(extra - h).map(|w| w as u64 + 1) == Some(*h)) {
+            Some(h) => extra - h,
+            None => continue,
+        };
         n.children.push(Node::leaf(Item::B(VOID_ID, rng.bytes(payload as usize))));
         debug_assert_eq!(content_len(n), target);
         return true;
@@ -633,6 +641,9 @@ pub fn len_class(n: usize) -> &'static str {
         16382 => "len16382",
         16383 => "len16383",
         16384 => "len16384",
+        2_097_150 => "len2097150",
+        2_097_151 => "len2097151",
+        2_097_152 => "len2097152",
         _ => "len>16384",
     }
 }
